@@ -47,15 +47,15 @@ PROFILES = {
     "C18": ("mixed", "transport", "buffers", "classic"),
     "C01": ("mixed", "full", "buffers", "stoch", "wide"),
     "C02": ("full", "stoch", "mixed", "full", "wide", "outs"),
-    "C03": ("mixed", "buffers", "race", "full", "race", "multibuf", "wide"),
-    "C05": ("mixed", "buffers", "full", "stoch", "race", "multibuf", "wide", "outs"),
-    "C07": ("transport", "buffers", "full", "stoch", "race", "multibuf", "wide"),
-    "C08": ("buffers", "race", "full", "race", "wide", "multibuf"),
+    "C03": ("mixed", "buffers", "race", "full", "dep", "multibuf", "wide"),
+    "C05": ("mixed", "buffers", "full", "stoch", "race", "multibuf", "wide", "outs", "dep", "outstart"),
+    "C07": ("transport", "buffers", "full", "stoch", "race", "multibuf", "wide", "dep"),
+    "C08": ("buffers", "race", "full", "dep", "wide", "multibuf"),
     "C09": ("full", "stoch", "full", "mixed", "wide"),
     "C10": ("full", "stoch", "full", "full", "wide", "outs"),
-    "C11": ("transport", "buffers", "full", "race", "wide", "multibuf"),
+    "C11": ("transport", "buffers", "full", "race", "wide", "multibuf", "dep", "outstart"),
     "C12": ("mixed", "full", "transport", "stoch", "wide", "outs"),
-    "C20": ("mixed", "full", "buffers", "transport"),
+    "C20": ("dep", "mixed", "dep", "transport", "race", "dep", "outs", "multibuf", "full", "dep", "buffers"),
 }
 
 
@@ -66,6 +66,7 @@ def _worker(args):
     import jsl
     import trace
     tracer = trace.Tracer(keep_objects=bool(extra.get("keep_objects")))
+    tracer.check_input_purity = (prop == "C20")
     tracer.want_pre = want_events
     tracer.record_mw = bool(extra.get("record_mw"))
     tracer.record_env = bool(extra.get("record_env"))
@@ -123,10 +124,20 @@ def _worker(args):
             out["disagreements"].append({"groups": ["env"], "where": "env.step #%d" % k,
                                          "replay": {"pre_env": rec[1][:3000], "action": rec[2], "impl": rec[3][-1500:],
                                                     "model": m[-1500:]}})
+    # 1b. purity of state.step (C20): the input state object of every call equals its deep copy afterwards
+    for mu in tracer.input_mutations[:20]:
+        out["violations"].append({"kind": "purity:step_input_mutated", "detail": "state.step altered the state object it was "
+                                  "given (fields %s)" % mu["fields"],
+                                  "replay": replay_of(min(mu["record"], len(tracer.records) - 1), before=mu["before"], after=mu["after"]),
+                                  "facts": {"fields": mu["fields"]}})
+    out["step_inputs_snapshotted"] = len(tracer.records) if tracer.check_input_purity else 0
     # 2. monitors
     st = {}
     sv = trace.monitor_states(tracer.records, drv, which=set(STATE_CLAUSES.get(prop, [])) or {"-"}, stats=st)
     out["states"] = st.get("states", 0)
+    # (output_done is an invariant only from initial states without unfinished jobs in an output buffer - fresh2, the
+    #  hypothesis of the theorems: episodes of the 'outstart' profile start outside it)
+    sv = [e_ for e_ in sv if not (e_[2] == "output_done" and ep_of(e_[0]).feats.get("profile") == "outstart")]
     for k, pos, name, s in sv[:50]:
         out["violations"].append({"kind": "state:" + name, "detail": "clause %s false at %s" % (name, pos),
                                   "replay": replay_of(k, state=s, position=pos)})
@@ -361,6 +372,7 @@ def sm_check(ctx, n_quick=160, n_thorough=6000, custom_p=0.15, extra=None, worke
         tot["mw_records"] += o.get("mw_records", 0)
         tot["env_records"] += o.get("env_records", 0)
         tot["flex_episodes"] += o.get("flex_episodes", 0)
+        tot["step_inputs_snapshotted"] += o.get("step_inputs_snapshotted", 0)
         tot["fresh_initial_states"] += o.get("fresh_initial_states", 0)
         ends.update(o["ends"])
         feats.update(o["features"])
@@ -391,6 +403,8 @@ def sm_check(ctx, n_quick=160, n_thorough=6000, custom_p=0.15, extra=None, worke
         "episode_end_histogram": dict(ends), "input_distribution": dict(feats),
         "transition_kinds_seen": dict(kinds),
     })
+    if prop == "C20":
+        ctx.coverage["step_inputs_compared_with_their_deep_copy"] = tot["step_inputs_snapshotted"]
     if prop in ("C01", "C04", "C03", "C02"):
         ctx.coverage["initial_states_checked_against_theorem_hypotheses"] = tot["fresh_initial_states"]
         ctx.coverage["episodes_on_instances_with_unordered_post_buffers"] = tot["flex_episodes"]
@@ -517,7 +531,7 @@ def class_member(v):
 
 
 def c20(ctx):
-    sm_check(ctx, n_quick=120, extra={"hook": "c20", "keep_objects": True})
+    sm_check(ctx, n_quick=440, extra={"hook": "c20", "keep_objects": True}, workers_quick=11)
     keep_only(ctx, lambda v: not v["kind"].startswith("outcome:"))
     for h in ctx.hook_outputs:
         for v in (h or {}).get("violations", []):
@@ -572,6 +586,19 @@ def c04(ctx):
     sm_check(ctx, n_quick=200, custom_p=0.4, extra={"hook": "c04", "record_env": True})
     keep_only(ctx, lambda v: not v["kind"].startswith("outcome:"))
     _merge_hook(ctx, "c04_")
+    # episodes OUTSIDE the hypotheses of the theorems: jobs that start in the output buffer with all their operations
+    # pending. Only the flags are judged there (independent reading in the hook + the env/middleware correspondence).
+    saved = (dict(ctx.coverage), list(ctx.broken_correspondence), list(ctx.samples), list(ctx.violations), ctx.hook_outputs)
+    sm_check(ctx, n_quick=80, n_thorough=800, extra={"hook": "c04", "record_env": True, "profiles": ("outstart",),
+                                                     "ps": (0.3, 0.6, 0.9, 1.0), "trunc_p": 0.5})
+    keep_only(ctx, lambda v: not v["kind"].startswith("outcome:") and not v["kind"].startswith("state:"))
+    _merge_hook(ctx, "c04out_")
+    extra_v, extra_b, ecov = list(ctx.violations), list(ctx.broken_correspondence), dict(ctx.coverage)
+    ctx.coverage, ctx.samples = saved[0], saved[2]
+    ctx.coverage["episodes_with_unfinished_jobs_starting_in_an_output_buffer"] = ecov.get("episodes")
+    ctx.coverage["steps_judged_in_those_episodes"] = ecov.get("c04out_steps")
+    ctx.violations = saved[3] + extra_v
+    ctx.broken_correspondence = saved[1] + extra_b
     if ctx.broken_correspondence and not ctx.violations:
         # the correspondence is broken and no clause of the property failed on the sampled episodes: directed
         # search for a failing input (truncation always active, small allowances, mostly declining policies)
